@@ -74,6 +74,13 @@ def classify (s : Site) : Option Why :=
   else if s.file == "_public.py" && s.func == "build" && s.recv == "model_proto.graph" then some .freshProto
   else if s.file == "_public.py" && s.func == "inline" && startsWith s.recv "model." then some .freshProto
   else if s.file == "_value_prop.py" && s.func == "_run_onnxruntime" && s.recv == "options" then some .freshProto
+  -- `_initializers_to_constants(graph)` rewrites the graph it is handed; every caller hands it the graph of
+  -- the ModelProto `onnx.version_converter.convert_version` has just returned (obligation
+  -- `converter_output_is_fresh` over `Generated.FrontFacts.converterFacts`): never the user's model, never
+  -- `_Inline.model`, never a spox object. Only these three writes, only this receiver.
+  else if s.file == "_adapt.py" && s.func == "_initializers_to_constants" && s.recv == "graph" &&
+      (s.attr == "initializer" || s.attr == "node") &&
+      (s.kind == "del-item" || s.kind == "mutate-attr") then some .freshProto
   else if s.kind == "mutate-attr" && s.file == "_var.py" && s.recv == "Var" && s.attr == "_operator_dispatcher" &&
       (s.func == "Var.__add__" || s.func == "Var.__radd__") then some .notContainer
   else none
